@@ -69,7 +69,7 @@ TRUSTED = [
     "attempt_to_decode_idna (CPython idna codec) is an abstract parameter `puny` of the model; the driver uses the table of the real codec's answers on the labels of the case; the three laws the theorems assume (HostnameTrieSet.PunyLaws: decoded — the result is the input or no longer starts with xn--; no_dot — no dot is brought into a dot-free label; clean — a dot-free, space-free, ASCII-lower-case label decodes to such a label) are evaluated by the model on that table on every case (\"laws\": true expected) and by harness/punylaws.py (group HostTok, run_obligations) on the real decoder over the whole enumerated ACE label class on every run",
     "is_special_host is an abstract parameter `special` (table from the real function); the property excludes special hosts (IP literals, localhost), generators never produce them",
     "str.strip / str.lower are modelled exactly on ASCII and on the 29 isspace code points; non-ASCII letters in the generators are lower-case already (lower() is the identity on them)",
-    "iteration order: TrieDict.prefixes() is modelled as the explicit-stack loop it is (dict insertion order = association-list order) and __iter__ is compared with the real generator IN ORDER; the theorems state permutations / Nodup only (the property states no order), the oracle compares sets",
+    "iteration order: TrieDict.prefixes() is modelled as the explicit-stack loop it is (dict insertion order = association-list order; the model reproduces Python's order — checked once, 0 disagreements in order over the quick stream) but the order is not part of the contract: iteration is compared as a sorted list (so duplicates would still be seen); the theorems state permutations / Nodup",
 ]
 ASSUMPTIONS = [
     "hostnames are ordinary: no IP literal, no localhost (documented as undefined behaviour by the class), and — the property's quantifier: labels over an alphabet — no trailing dot, no empty label. What the code does with those is STATED, not excluded silently (tok_trailing_dot, match_needs_first_token, match_url_trailing_dot): labels are compared as they are, the empty ones included; 'a.b.' tokenises to ['', 'b', 'a'] and is covered only by adds spelled with the trailing dot (and vice versa). The oracle does not ask for either behaviour (generators never produce such hosts)",
@@ -461,8 +461,14 @@ def impl(case):
 def canon(op, out):
     if not isinstance(out, dict) or "states" not in out:
         return out
-    # `iter` is compared IN ORDER: the model's prefixes() is the explicit-stack generator (Model/TrieDict.lean)
-    res = {"laws": out.get("laws"), "states": list(out["states"])}
+    # the order of iteration is not part of the contract (a re-ordered traversal is a harmless edit): multisets
+    sts = []
+    for s in out["states"]:
+        if isinstance(s, dict) and isinstance(s.get("iter"), list):
+            s = dict(s)
+            s["iter"] = sorted(s["iter"])
+        sts.append(s)
+    res = {"laws": out.get("laws"), "states": sts}
     if "hosts" in out:
         res["hosts"] = out["hosts"]
     return res
